@@ -788,6 +788,25 @@ def run(ctx):
         ntr += len(per)
     ctx.evaluations = nev
     ctx.traces = ntr
+    # run level: the schedulers as the mediator really drives them (real simulations of shipped and dense generated
+    # configurations, both schedulers), replayed operation by operation in the models
+    from harness import runs as _runs, runcommon as _rc, genconfigs as _gc
+    jobs = []
+    for ini in _runs.SHIPPED:
+        jobs.append({"ini": ini, "seed": ctx.seed * 1000 + 11, "max_legs": ctx.n(1500, 12000),
+                     "overrides": {"FinalTimeEndOfRunEventHandler": {"end_of_run_time": ctx.n(15, 120)},
+                                   "SingleProcessMediator": {"scheduler": rng.choice(["heap_scheduler", "list_scheduler"])}}})
+    for k in range(ctx.n(4, 12)):
+        j = _gc.dense_cells(rng, _runs.CFG) if k % 2 else _gc.soft_spheres_cells(rng)
+        jobs.append({**j, "seed": ctx.seed * 1000 + 20 + k, "max_legs": ctx.n(1500, 12000)})
+    for tr in _runs.run_jobs(ctx.root, jobs):
+        if not tr["legs"]:
+            ctx.count("run-replay:trace-failed:" + str(tr["end"])[:40])
+            continue
+        n = _rc.replay_scheduler(ctx, tr)
+        ctx.evaluations += n
+        ctx.traces += 1
+        ctx.cls(("run-replay", tr["meta"]["scheduler"], tr["meta"]["ini"].split("/")[-1]))
 
 
 
